@@ -128,6 +128,10 @@ func (w *Watcher) getGovernanceEventsByTxId(
 		if event.EventIndex != WormholeMessageEventIndex {
 			continue
 		}
+		// the tx may have touched other contracts, and may have been included in an orphaned block before
+		if event.ContractAddress != address || event.BlockHash != blockHash {
+			continue
+		}
 
 		header, err := client.GetBlockHeader(ctx, event.BlockHash)
 		if err != nil {
